@@ -680,11 +680,6 @@ func (vm *VolumeManager) ResizeVolume(ctx context.Context, id int64, maxSectors 
 	}
 	defer done()
 
-	stat, err := vm.vs.Volume(id)
-	if err != nil {
-		return fmt.Errorf("failed to get volume: %w", err)
-	}
-
 	vm.mu.Lock()
 	defer vm.mu.Unlock()
 
@@ -694,8 +689,17 @@ func (vm *VolumeManager) ResizeVolume(ctx context.Context, id int64, maxSectors 
 	}
 
 	// check that the volume is not already being resized
+	oldStatus := vol.Status()
 	if err := vol.SetStatus(VolumeStatusResizing); err != nil {
 		return fmt.Errorf("failed to set volume status: %w", err)
+	}
+
+	// the current size must be read after the status is claimed: an earlier
+	// resize may have completed in the meantime
+	stat, err := vm.vs.Volume(id)
+	if err != nil {
+		vol.SetStatus(oldStatus)
+		return fmt.Errorf("failed to get volume: %w", err)
 	}
 
 	var resetReadOnly bool
